@@ -86,7 +86,7 @@ def sample_events(traces, pid, n=4):
 
 
 def write_replay(pid, trace, failure):
-    d = os.path.join(VERIF, "replays")
+    d = os.environ.get("VERIF_REPLAY_DIR") or os.path.join(VERIF, "replays")
     os.makedirs(d, exist_ok=True)
     path = os.path.join(d, "%s-%s-l%d-%s.json" % (pid, trace["id"], failure["line"], failure["clause"]))
     with open(path, "w") as fh:
